@@ -28,6 +28,8 @@ type Op struct {
 	Level  string `json:"level,omitempty"`
 	Heavy  bool   `json:"heavy,omitempty"`  // allow a long stall budget
 	Script bool   `json:"script,omitempty"` // report the read-call script
+	Count  bool   `json:"count,omitempty"`  // with Trace: hook events are only counted (stall detection), not kept
+	NoRes  bool   `json:"nores,omitempty"`  // the op-specific result is not needed by the driver: do not send it back
 }
 
 // Obs is what the worker observed for one Op.
